@@ -103,6 +103,14 @@ fn format_string_body<const N: usize, const W: usize>() {
 }
 
 #[kani::proof]
+#[kani::unwind(7)]
+#[kani::stub(core::arch::x86_64::_mm_max_epu8, crate::verif_kmodels::mm_max_epu8)]
+#[kani::stub(core::fmt::write, crate::verif_kmodels::fmt_write_cut)]
+fn u_format_string_n4() {
+    format_string_body::<4, 59>();
+}
+
+#[kani::proof]
 #[kani::unwind(9)]
 #[kani::stub(core::arch::x86_64::_mm_max_epu8, crate::verif_kmodels::mm_max_epu8)]
 #[kani::stub(core::fmt::write, crate::verif_kmodels::fmt_write_cut)]
